@@ -63,6 +63,12 @@ func mkCase(rp Replay) (*Case, error) {
 			return nil, err
 		}
 		return &Case{Coq: o.coq, Replay: rp, NonTrivial: o.nontriv, Oracle: o.viol, Stream: "pos", Tags: o.tags}, nil
+	case rp.E2E != nil && rp.E2E.Kind == "restart":
+		o, err := runRestart(*rp.E2E)
+		if err != nil {
+			return nil, err
+		}
+		return &Case{Coq: o.coq, Replay: rp, NonTrivial: o.nontriv, Oracle: o.viol, Stream: "restart", Tags: o.tags}, nil
 	case rp.E2E != nil && rp.E2E.Kind == "tail":
 		o, err := runTail(*rp.E2E)
 		if err != nil {
@@ -330,6 +336,44 @@ func genTail(r *Rng) E2EReplay {
 	return rp
 }
 
+// clean stops and starts: 1-3 segments; every segment writes to 2-4 partitions (RPC and direct), the last writes of a
+// segment come right before the stop, so that their tails are still in the write buffers
+func genRestart(r *Rng) E2EReplay {
+	rp := E2EReplay{Kind: "restart", MaxRec: 4096, MaxChunk: int64(r.PickInt(150, 400, 1000, 4096, 65536))}
+	nparts := r.Range(2, 4)
+	perm := r.Perm(len(partPool))
+	ts := int64(r.Range(100, 5000))
+	nseg := r.Range(1, 3)
+	for sgi := 0; sgi < nseg; sgi++ {
+		if sgi > 0 {
+			rp.Reqs = append(rp.Reqs, Req{Kind: "restart"})
+		}
+		order := r.Perm(nparts)
+		nw := r.Range(nparts, nparts+2)
+		for w := 0; w < nw; w++ {
+			p := partPool[perm[order[w%nparts]]]
+			tags := p[r.Intn(len(p))]
+			n := r.PickInt(1, 2, 3, 5, 9)
+			if r.Chance(1, 2) {
+				var aes []AE
+				for i := 0; i < n; i++ {
+					ts += int64(r.Range(0, 2))
+					aes = append(aes, AE{Ts: ts, Msg: []byte(fmt.Sprintf("s%d-w%d-e%d-%s", sgi, w, i, r.Bytes(r.Intn(12), []byte("xyz")))), Flds: r.PickStr("", "", "f=1", "host=h1,dc=x")})
+				}
+				rp.Reqs = append(rp.Reqs, Req{Kind: "rpc", Tags: tags, Flds: r.PickStr("", "w=1"), Aes: aes})
+			} else {
+				var les []LE
+				for i := 0; i < n; i++ {
+					ts += int64(r.Range(0, 2))
+					les = append(les, LE{Ts: ts, Msg: []byte(fmt.Sprintf("s%d-w%d-d%d-%s", sgi, w, i, r.Bytes(r.Intn(12), []byte("xyz")))), Flds: genBinFields(r, false)})
+				}
+				rp.Reqs = append(rp.Reqs, Req{Kind: "dir", Tags: tags, Les: les})
+			}
+		}
+	}
+	return rp
+}
+
 // deterministic corpus: always first
 func corpus() []Replay {
 	big := make([]byte, 1500)
@@ -452,7 +496,25 @@ func corpus() []Replay {
 	halfBody := append([]byte{}, hugeBody...)
 	copy(halfBody[hdr2-4:hdr2], []byte{0x80, 0, 0, 0})
 	counts := E2EReplay{Kind: "e2e", MaxChunk: 65536, MaxRec: 4096, Note: "packet counts 0xffffffff and 0x80000000", Reqs: []Req{{Kind: "raw", Body: hugeBody}, {Kind: "raw", Body: halfBody}}}
-	return []Replay{{E2E: &oversize}, {E2E: &trunc}, {E2E: &roll}, {E2E: &limit}, {E2E: &tail}, {E2E: &defRec}, {E2E: &noLim},
+	// clean stop and start with unflushed tails in four partitions (and in three of them again after the first restart):
+	// 30 events per partition and segment, chunks of 1000 bytes (full chunks are synced when the writer moves on, the
+	// last one of every partition is in the write buffer at the stop)
+	batch := func(seg, p, n int) []AE {
+		var aes []AE
+		for i := 0; i < n; i++ {
+			aes = append(aes, AE{Ts: int64(1000*seg + i), Msg: []byte(fmt.Sprintf("seg%d-part%d-event%02d-0123456789", seg, p, i)), Flds: "f=1"})
+		}
+		return aes
+	}
+	restart := E2EReplay{Kind: "restart", MaxChunk: 1000, MaxRec: 4096, Note: "clean stop with buffered tails in 4 partitions, twice", Reqs: []Req{
+		{Kind: "rpc", Tags: "p=1,app=a", Flds: "w=1", Aes: batch(0, 1, 30)}, {Kind: "rpc", Tags: "p=2,app=a", Aes: batch(0, 2, 30)},
+		{Kind: "rpc", Tags: "p=3,app=b", Aes: batch(0, 3, 30)}, {Kind: "dir", Tags: "p=1,app=A", Les: []LE{{Ts: 1, Msg: []byte("direct-0")}, {Ts: 2, Msg: []byte("direct-1"), Flds: []byte("\x01k\x01v")}}},
+		{Kind: "restart"},
+		{Kind: "rpc", Tags: "p=2,app=a", Aes: batch(1, 2, 30)}, {Kind: "rpc", Tags: "p=3,app=b", Aes: batch(1, 3, 7)}, {Kind: "dir", Tags: "p=1,app=A", Les: []LE{{Ts: 3, Msg: []byte("direct-2")}}},
+		{Kind: "restart"},
+		{Kind: "restart"},
+	}}
+	return []Replay{{E2E: &oversize}, {E2E: &trunc}, {E2E: &roll}, {E2E: &limit}, {E2E: &tail}, {E2E: &defRec}, {E2E: &noLim}, {E2E: &restart},
 		{E2E: &atRec}, {E2E: edge(59)}, {E2E: edge(60)}, {E2E: edge(61)}, {E2E: &many}, {E2E: &twins}, {E2E: &pairs}, {E2E: &counts}}
 }
 
@@ -806,6 +868,10 @@ func main() {
 		}
 		for i := 0; i < c.N(6); i++ {
 			e := genTail(r.Fork())
+			jobs = append(jobs, Replay{E2E: &e})
+		}
+		for i := 0; i < c.N(5); i++ {
+			e := genRestart(r.Fork())
 			jobs = append(jobs, Replay{E2E: &e})
 		}
 		for i := 0; i < c.N(40); i++ {
